@@ -243,6 +243,10 @@ fn check_printf_batch(s: &mut Sink, cases: &[[u64; 3]]) {
             libc::close(pa[0]);
             libc::close(pb[0]);
             libc::dup2(pa[1], 1);
+            // "the number of bytes it prints": the property does not name the stream - standard error
+            // is captured as well (and the child's own panic messages are silenced)
+            libc::dup2(pa[1], 2);
+            std::panic::set_hook(Box::new(|_| {}));
             let mut rets: Vec<u8> = vec![];
             for c in &cases_v {
                 let r = std::panic::catch_unwind(|| helpers::bpf_trace_printf(0x11, 0x22, c[0], c[1], c[2]));
